@@ -56,6 +56,32 @@ def deep_map(a: Any, fn: Callable[[Obj], Any]) -> Any:
     return a
 
 
+class LiveNodes:
+    """graph.nodes: iteration follows the live linked list like torch.fx does (nodes
+    inserted after the cursor are visited, erased ones are skipped via their old link)."""
+
+    def __init__(self, ag: "AbstractGraph"):
+        self.ag = ag
+
+    def first(self) -> Optional[Obj]:
+        return self.ag.nodes[0] if self.ag.nodes else None
+
+    def after(self, cur: Obj) -> Optional[Obj]:
+        seen = set()
+        while cur is not None and id(cur) not in seen:
+            seen.add(id(cur))
+            if any(cur is x for x in self.ag.nodes):
+                i = next(i for i, x in enumerate(self.ag.nodes) if x is cur)
+                return self.ag.nodes[i + 1] if i + 1 < len(self.ag.nodes) else None
+            cur = cur.attrs.get("_next_at_erase")  # erased: follow the link it had
+            if cur is not None and any(cur is x for x in self.ag.nodes):
+                return cur
+        return None
+
+    def snapshot(self) -> List[Obj]:
+        return list(self.ag.nodes)
+
+
 class AbstractGraph:
     def __init__(self, it: Interp, name: str = "graph"):
         self.it = it
@@ -66,7 +92,7 @@ class AbstractGraph:
         self.linted = 0
         g = Obj(GRAPH, term=T("param", (name,)), open_attrs=False)
         self.obj = g
-        g.dyn["nodes"] = lambda: list(self.nodes)
+        g.dyn["nodes"] = lambda: LiveNodes(self)
         g.attrs["erase_node"] = _Builtin("Graph.erase_node", lambda it2, a, k, nd: self._erase(a[0], nd))
         g.attrs["lint"] = _Builtin("Graph.lint", lambda it2, a, k, nd: self._lint(nd))
         g.attrs["call_function"] = _Builtin("Graph.call_function", lambda it2, a, k, nd: self._call_function(a, k, nd))
@@ -120,6 +146,8 @@ class AbstractGraph:
         if users:
             self.it.log("raise", nd, exc=f"RuntimeError(Tried to erase Node {n.attrs['name']} but it still had {len(users)} users in the graph: {[u.attrs['name'] for u in users]})")
             return BOTTOM
+        i = next(i for i, x in enumerate(self.nodes) if x is n)
+        n.attrs["_next_at_erase"] = self.nodes[i + 1] if i + 1 < len(self.nodes) else None
         self.nodes = [x for x in self.nodes if x is not n]
         self.erased.append(n)
         self.it.log("fx-erase", nd, fxnode=n)
@@ -142,6 +170,9 @@ class AbstractGraph:
 
     def _inserting(self, n: Any, after: bool) -> Any:
         prev = self.insert_after
+        if is_node(n) and not any(x is n for x in self.nodes):
+            self.it.log("raise", None, exc=f"RuntimeError(inserting relative to erased node {n.attrs['name']})")
+            return BOTTOM
         if is_node(n):
             idx = next(i for i, x in enumerate(self.nodes) if x is n)
             self.insert_after = n if after else (self.nodes[idx - 1] if idx > 0 else None)
